@@ -4,7 +4,9 @@
 -/
 import BlocV.Proofs.Lemmas.FileMod
 import BlocV.Proofs.Lemmas.FileSeq
+import BlocV.Proofs.Lemmas.FileDir
 import BlocV.Model.Mod.Sqlite
+import BlocV.Proofs.Lemmas.SqliteSeq
 
 namespace BlocV.Proofs.C18F
 open BlocV.Mod BlocV.Mod.File
@@ -283,28 +285,34 @@ theorem file_refines_spec : ∀ (ops : List Op) (w : World) (f : OFile), w.h.fil
     · simp only [List.map_cons, srun]
       exact hc
 
-/-- **file_refines_spec for one-way streams**: on a handle opened without `+` (read-only or write-only stream) the side
-    condition of `file_refines_spec` holds by itself: EVERY list of stream calls refines the specification. -/
+/-- **file_refines_spec for one-way streams**: on a handle opened without `+` (read-only or write-only stream) whose `_r` flag
+    is not set when the stream cannot read, the side condition of `file_refines_spec` holds by itself: EVERY list of stream
+    calls refines the specification. (The proviso excludes the mode strings `"wr"`, `"w\0r"`, `"ar"`: BLOC computes `_r` with
+    `find('r')` over the whole string, so `read()` reaches `fread` on a write-only stream with output pending — part of the
+    recorded region `C18.file_update_without_reposition`.) -/
 theorem file_refines_spec_oneway : ∀ (ops : List Op) (w : World) (f : OFile), w.h.file = some f → (f.wr && f.rd) = false →
+    (f.rd = false → w.h.r = false) →
     (∀ op ∈ ops, StreamOp op) → ∀ r ∈ (run w ops).2, r ≠ .undefinedSeq := by
   intro ops
   induction ops with
-  | nil => intro w f _ _ _ r hr; simp [run] at hr
+  | nil => intro w f _ _ _ _ r hr; simp [run] at hr
   | cons op ops ih =>
-    intro w f hf h1 hops r hr
+    intro w f hf h1 h2 hops r hr
     rw [run_cons] at hr
-    have hu := step_oneway w f hf h1 op
+    have hu := step_oneway w f hf h1 h2 op
     obtain ⟨f1, g1, _, g3, _⟩ := step_refines w f hf op (hops op (by simp)) hu
     have hfl := sstep_flags w.fs.maxOff (absS w f) (toS op)
-    rw [← g3] at hfl
-    have h1' : (f1.wr && f1.rd) = false := by
-      have e1 : f1.rd = f.rd := hfl.1
-      have e2 : f1.wr = f.wr := hfl.2
-      rw [e1, e2]; exact h1
+    have hmy := sstep_may w.fs.maxOff (absS w f) (toS op)
+    rw [← g3] at hfl hmy
+    have e1 : f1.rd = f.rd := hfl.1
+    have e2 : f1.wr = f.wr := hfl.2
+    have e3 : (step w op).1.h.r = w.h.r := hmy.1
+    have h1' : (f1.wr && f1.rd) = false := by rw [e1, e2]; exact h1
+    have h2' : f1.rd = false → (step w op).1.h.r = false := by rw [e1, e3]; exact h2
     simp only [List.mem_cons] at hr
     rcases hr with rfl | hr
     · exact hu
-    · exact ih (step w op).1 f1 g1 h1' (fun o ho => hops o (by simp [ho])) r hr
+    · exact ih (step w op).1 f1 g1 h1' h2' (fun o ho => hops o (by simp [ho])) r hr
 
 /-- the hypotheses of `file_refines_spec` are satisfiable on a non-trivial history: a stream opened "r" on the file
     `61 0a 62 63`: `readln`, `read(S, 1)`, `seekset(1)`, `write("XY")` (refused), `position()`, `flush()`, `seekend(-1)`,
@@ -319,7 +327,7 @@ def opsSeq : List Op :=
 
 example : wSeq.h.file = some { path := [120], pos := 0, rd := true, wr := false, app := false } ∧ (∀ op ∈ opsSeq, StreamOp op)
     ∧ (∀ r ∈ (run wSeq opsSeq).2, r ≠ .undefinedSeq) :=
-  ⟨rfl, by simp [opsSeq, StreamOp], file_refines_spec_oneway opsSeq wSeq _ rfl rfl (by simp [opsSeq, StreamOp])⟩
+  ⟨rfl, by simp [opsSeq, StreamOp], file_refines_spec_oneway opsSeq wSeq _ rfl rfl (by simp) (by simp [opsSeq, StreamOp])⟩
 
 /-- the specification side of that history, evaluated: line `61 0a`, then `62`, seek, refused write, offset 1, …, the last
     byte, nothing for a negative count -/
@@ -329,6 +337,105 @@ example : (srun 1000 ⟨⟨[97, 10, 98, 99], 0, false⟩, true, false, true, fal
   decide +kernel
 
 end Seq
+
+/-! ### update streams: histories in which every switch of direction goes through a seek -/
+
+section Repositioned
+open BlocV.Proofs.FileDir
+open BlocV.Spec.File (SStream SOp SRes sstep srun)
+
+/-- **file_disciplined_defined.** A history of stream calls in which no call switches the direction of transfer while one is
+    "open" — a read after a write only behind an in-range `seekset` or a `flush`, a write after a read only behind an
+    in-range `seekset` (`Disciplined`, a condition on the CALLS alone, no state consulted) — never reaches the region C11
+    7.21.5.3 p7 leaves undefined (recorded finding `C18.file_update_without_reposition` is its complement): no call answers
+    `undefinedSeq`, on ANY handle (any mode incl. r+ / w+ / a+, any content, any position) whose stream is not in the
+    middle of a transfer. -/
+theorem file_disciplined_defined : ∀ (ops : List Op) (w : World) (f : OFile) (p : Pend), w.h.file = some f →
+    (∀ op ∈ ops, StreamOp op) → Approx p f.last → Disciplined w.fs.maxOff p ops →
+    ∀ r ∈ (run w ops).2, r ≠ .undefinedSeq := by
+  intro ops
+  induction ops with
+  | nil => intro w f p _ _ _ _ r hr; simp [run] at hr
+  | cons op ops ih =>
+    intro w f p hf hops ha hd r hr
+    rw [run_cons] at hr
+    obtain ⟨hal, hd'⟩ := hd
+    obtain ⟨hu, hn⟩ := step_disciplined w f op p hf (hops op (by simp)) ha hal
+    obtain ⟨f1, g1, g2, _, _⟩ := step_refines w f hf op (hops op (by simp)) hu
+    simp only [List.mem_cons] at hr
+    rcases hr with rfl | hr
+    · exact hu
+    · have hd'' : Disciplined (step w op).1.fs.maxOff (p.next w.fs.maxOff op) ops := by rw [g2]; exact hd'
+      exact ih (step w op).1 f1 _ g1 (fun o ho => hops o (by simp [ho])) (hn f1 g1) hd'' r hr
+
+/-- **file_refines_spec_repositioned.** On EVERY open handle — update streams `r+`, `w+`, `a+` and their `b` variants
+    included — whose stream is not in the middle of a transfer (as after `open`), EVERY history of stream calls in which the
+    switches of direction go through a seek (`Disciplined`) is the POSIX-level specification run: same answers call by call,
+    same content and offset at the end. In particular what is read after a write is what the specification reads: the bytes
+    written (`srun_update_roundtrip`, `file_update_roundtrip`). This is `file_refines_spec` with its side condition
+    discharged from the shape of the history. -/
+theorem file_refines_spec_repositioned (ops : List Op) (w : World) (f : OFile) (hf : w.h.file = some f)
+    (hops : ∀ op ∈ ops, StreamOp op) (hfresh : f.last ≠ .output ∧ f.last ≠ .input) (hd : Disciplined w.fs.maxOff .none ops) :
+    (run w ops).2 = (srun w.fs.maxOff (absS w f) (ops.map toS)).2.map resOf
+    ∧ ∃ f', (run w ops).1.h.file = some f' ∧ absS (run w ops).1 f' = (srun w.fs.maxOff (absS w f) (ops.map toS)).1 :=
+  file_refines_spec ops w f hf hops
+    (file_disciplined_defined ops w f .none hf hops ⟨fun h => absurd h hfresh.1, fun h => absurd h hfresh.2⟩ hd)
+
+/-- **file_update_roundtrip.** Read-after-write on an update stream: on any handle opened for reading AND writing without
+    append (`r+`, `w+`), whatever the file holds and wherever the stream stands, `seekset(o); write(d); seekset(o); read(v, |d|)`
+    with any offset `0 ≤ o ≤ maxOff` and any non-empty data below 2^32 bytes answers `0, |d|, 0` and then delivers exactly `d`. -/
+theorem file_update_roundtrip (w : World) (f : OFile) (o n : Int64) (d : Bytes) (hf : w.h.file = some f)
+    (hrd : f.rd = true) (hwr : f.wr = true) (happ : f.app = false) (hr : w.h.r = true) (hw : w.h.w = true)
+    (hfresh : f.last ≠ .output ∧ f.last ≠ .input) (ho : inRange w.fs.maxOff o = true)
+    (hd : d ≠ []) (hlen : d.length < 4294967296) (hn : n.toInt = d.length) :
+    (run w [.seekSet (some o), .writeS (some d), .seekSet (some o), .readS (some n)]).2
+      = [.int 0, .int d.length, .int 0, .rd d.length d] := by
+  have hdis : Disciplined w.fs.maxOff .none [.seekSet (some o), .writeS (some d), .seekSet (some o), .readS (some n)] := by
+    simp [Disciplined, Pend.allows, Pend.next, ho]
+  have hops : ∀ op ∈ [Op.seekSet (some o), .writeS (some d), .seekSet (some o), .readS (some n)], StreamOp op := by
+    intro op hop
+    simp only [List.mem_cons, List.not_mem_nil, or_false] at hop
+    rcases hop with rfl | rfl | rfl | rfl <;> simp [StreamOp, hlen]
+  have h := (file_refines_spec_repositioned _ w f hf hops hfresh hdis).1
+  simp only [inRange, Bool.and_eq_true, decide_eq_true_eq] at ho
+  have ek : o.toInt = ((o.toInt.toNat : Nat) : Int) := (Int.toNat_of_nonneg ho.1).symm
+  have hs := srun_update_roundtrip w.fs.maxOff (absS w f) o.toInt.toNat d ho.2 hd (by simp [absS, hrd]) (by simp [absS, hwr])
+    (by simp [absS, hr]) (by simp [absS, hw]) (by simp [absS, absF, happ])
+  rw [h]
+  simp only [List.map_cons, List.map_nil, toS, hn]
+  rw [ek, hs]
+  simp [resOf]
+
+/-- hypotheses satisfiable (a handle opened "w+" on the file `abcdef`, standing at offset 6 after a read that met the end
+    of the file): `seekset(2); write("XY"); seekset(2); read(v, 2)` — and the same history WITHOUT the second seek is the
+    recorded finding's region (the read directly after the write answers `undefinedSeq`). -/
+def wUpd : World :=
+  { fs := { get := fun q => if q = [120] then some [97, 98, 99, 100, 101, 102] else none, maxOff := 1000 },
+    h := { file := some { path := [120], pos := 6, rd := true, wr := true, app := false, last := .inputEof }, path := [120],
+           mode := [119, 43], r := true, w := true } }
+
+example : wUpd.h.file = some { path := [120], pos := 6, rd := true, wr := true, app := false, last := .inputEof }
+    ∧ inRange wUpd.fs.maxOff 2 = true ∧ ((2 : Int64).toInt = ([88, 89] : Bytes).length)
+    ∧ Disciplined wUpd.fs.maxOff .none [.seekSet (some 2), .writeS (some [88, 89]), .seekSet (some 2), .readS (some 2)]
+    ∧ ¬ Disciplined wUpd.fs.maxOff .none [.seekSet (some 2), .writeS (some [88, 89]), .readS (some 2)]
+    ∧ (step (step (step wUpd (.seekSet (some 2))).1 (.writeS (some [88, 89]))).1 (.readS (some 2))).2 = .undefinedSeq := by
+  refine ⟨rfl, by decide, by decide, by decide, by decide, by decide +kernel⟩
+
+/-- the region also holds the write-only streams on which BLOC sets `_r` (mode string `"wr"`: `find('r')` succeeds, `fopen`
+    opens for writing only): `write(1 byte); read(X, 4097)` calls `fread` with output pending — the model answers
+    `undefinedSeq` (glibc throws the unflushed byte away); with a `flush()` in between the read is defined and delivers nothing -/
+def wWr : World :=
+  { fs := { get := fun q => if q = [120] then some [] else none, maxOff := 1000 },
+    h := { file := some { path := [120], pos := 0, rd := false, wr := true, app := false }, path := [120], mode := [119, 114],
+           r := true, w := true } }
+
+example : (step (step wWr (.writeB (some [20]))).1 (.readB (some 4097))).2 = .undefinedSeq
+    ∧ (step (step (step wWr (.writeB (some [20]))).1 .flush).1 (.readB (some 4097))).2 = .rd 0 []
+    ∧ Disciplined wWr.fs.maxOff .none [.writeB (some [20]), .flush, .readB (some 4097)]
+    ∧ ¬ Disciplined wWr.fs.maxOff .none [.writeB (some [20]), .readB (some 4097)] := by
+  refine ⟨by decide +kernel, by decide +kernel, by decide, by decide⟩
+
+end Repositioned
 
 /-! ### readln -/
 
@@ -702,5 +809,104 @@ example : (Sqlite.run {} [.open, .create, .prepare (some .insert), .bind (some [
   decide +kernel
 
 end Sqlite
+
+/-! ## sqlite3: whole histories on a prepared INSERT (bind / execute / exec / fetch / header / queries, failing steps included) -/
+
+section SqliteHistory
+open BlocV.Mod.Sqlite BlocV.Mod.SqliteAbs BlocV.Proofs.SqliteSeq
+open BlocV.Spec.Sqlite (Call St stored)
+
+/-- **sqlite_history_refines_spec.** From ANY state with an open connection, the table present (with or without NOT
+    NULL) and an `INSERT INTO t VALUES(?)` prepared (any status flag, any parameter content), for EVERY list of calls out
+    of bind(tuple) / bind(null) / execute() / exec(INSERT, tuple) / fetch / header / isopen / query(SELECT …) /
+    query(SELECT ?1, tuple) with ANY arguments — step-time failures (NOT NULL violations of execute and of exec)
+    anywhere in it — the module is the specification `Spec.Sqlite.run` ("one parameter slot; execute stores the slot's
+    CURRENT content unless the table refuses it"): same parameter content and same stored rows at the end, every
+    executing call answers TRUE exactly when the specification stores a row and SQLite's error exactly when it refuses,
+    and the state at the end is again such a state (so the theorem composes). The status flag `_stmt_status`, which a
+    failed step leaves at NEW on a halted statement, has no influence. -/
+theorem sqlite_history_refines_spec : ∀ (cs : List InsCall) (w : Sqlite.World) (cur : SVal) (rows : List SVal), Ready w cur rows →
+    Ready (Sqlite.run w (cs.map InsCall.toOp)).1
+        (BlocV.Spec.Sqlite.run (okNN w.notNull) ⟨cur, rows⟩ (cs.map (·.toCall w.emptyBuf))).1.slot
+        (BlocV.Spec.Sqlite.run (okNN w.notNull) ⟨cur, rows⟩ (cs.map (·.toCall w.emptyBuf))).1.rows
+    ∧ List.zipWith InsCall.ans cs (Sqlite.run w (cs.map InsCall.toOp)).2
+        = (BlocV.Spec.Sqlite.run (okNN w.notNull) ⟨cur, rows⟩ (cs.map (·.toCall w.emptyBuf))).2
+    ∧ (Sqlite.run w (cs.map InsCall.toOp)).1.notNull = w.notNull
+    ∧ (Sqlite.run w (cs.map InsCall.toOp)).1.emptyBuf = w.emptyBuf := by
+  intro cs
+  induction cs with
+  | nil => intro w cur rows h; exact ⟨h, rfl, rfl, rfl⟩
+  | cons c cs ih =>
+    intro w cur rows h
+    obtain ⟨h1, hn, he, ha⟩ := ins_step w cur rows c h
+    have := ih (Sqlite.step w c.toOp).1 _ _ h1
+    rw [hn, he] at this
+    simp only [List.map_cons, sqlite_run_cons, BlocV.Spec.Sqlite.run, List.zipWith_cons_cons]
+    exact ⟨this.1, by rw [ha, this.2.1], by rw [this.2.2.1], by rw [this.2.2.2]⟩
+
+/-- **sqlite_rows_function_of_binds.** The row set is the function of the values bound at the time of each execute: after
+    ANY such history the table holds the earlier rows followed by `Spec.Sqlite.stored` — for every successful `execute()`
+    the value of the LAST bind before it (the initial parameter content if there was none; a tuple without bindable item
+    keeps the previous value), for every successful one-step `exec` its own argument — and `query("SELECT a, typeof(a)
+    FROM t")` then delivers exactly these rows, each as `fetchOf` of the stored value with its `typeof`. -/
+theorem sqlite_rows_function_of_binds (cs : List InsCall) (w : Sqlite.World) (cur : SVal) (rows : List SVal) (h : Ready w cur rows) :
+    (Sqlite.run w (cs.map InsCall.toOp)).1.table
+        = some (rows ++ stored (okNN w.notNull) cur (cs.map (·.toCall w.emptyBuf)))
+    ∧ (Sqlite.step (Sqlite.run w (cs.map InsCall.toOp)).1 .queryAll).2
+        = (match rows ++ stored (okNN w.notNull) cur (cs.map (·.toCall w.emptyBuf)) with
+           | [] => .nullTable
+           | r :: rs => .table ((r :: rs).map rowOf) (declOf (r :: rs) .noType)) := by
+  obtain ⟨⟨ho, ht, _⟩, _⟩ := sqlite_history_refines_spec cs w cur rows h
+  rw [run_rows] at ht
+  refine ⟨ht, ?_⟩
+  simp only [Sqlite.step, ho, ht]
+  cases rows ++ stored (okNN w.notNull) cur (cs.map (·.toCall w.emptyBuf)) <;> simp
+
+/-- **sqlite_bind_after_any_history.** A bind after ANY history — whatever the outcome of the executes before it, failed
+    ones included — is what the next execute runs with: `bind(tup(v))` (temporary or not) answers TRUE and the following
+    `execute()` stores exactly the storage value of `v` (refused only if the table's own constraint refuses THAT value),
+    never a stale parameter. (The seeded change C18-m3 — bind skips `sqlite3_reset` when the status flag is NEW — falsifies
+    this on the real module after a failed execute.) -/
+theorem sqlite_bind_after_any_history (cs : List InsCall) (w : Sqlite.World) (cur : SVal) (rows : List SVal) (h : Ready w cur rows)
+    (v : BVal) (x : SVal) (temp : Bool) (hb : bindOf w.emptyBuf v = some x) (hx : ¬ (w.notNull = true ∧ x = .null)) :
+    ∃ rows', (Sqlite.run w (cs.map InsCall.toOp)).1.table = some rows'
+      ∧ Sqlite.run (Sqlite.run w (cs.map InsCall.toOp)).1 [.bind (some [v]) temp, .execute]
+          = ({ (Sqlite.run w (cs.map InsCall.toOp)).1 with
+                table := some (rows' ++ [x]),
+                h := { (Sqlite.run w (cs.map InsCall.toOp)).1.h with
+                        stmt := some { kind := .insert, binding := x, cursor := [] }, status := .done } },
+             [.bool true, .bool true]) := by
+  obtain ⟨⟨ho, ht, s, hs, hk, _, hc⟩, _, hn, he⟩ := sqlite_history_refines_spec cs w cur rows h
+  generalize (BlocV.Spec.Sqlite.run (okNN w.notNull) ⟨cur, rows⟩ (cs.map (·.toCall w.emptyBuf))).1.rows = R at ht
+  generalize (Sqlite.run w (cs.map InsCall.toOp)).1 = w' at *
+  refine ⟨R, ht, ?_⟩
+  have hb' : bindOf w'.emptyBuf v = some x := by rw [he]; exact hb
+  have hx' : ¬ (w'.notNull = true ∧ x = .null) := by rw [hn]; exact hx
+  have e2 : Sqlite.step w' (.bind (some [v]) temp)
+      = ({ w' with h := { w'.h with stmt := some { s with binding := x, cursor := [] }, status := .new } }, .bool true) := by
+    simp [Sqlite.step, ho, hs, hk, bindArgs, hb']
+  have e3 : Sqlite.step { w' with h := { w'.h with stmt := some { s with binding := x, cursor := [] }, status := .new } } .execute
+      = ({ w' with table := some (R ++ [x]),
+                   h := { w'.h with stmt := some { s with binding := x, cursor := [] }, status := .done } }, .bool true) := by
+    simp [Sqlite.step, ho, hk, ht, hx']
+  have hs' : ({ s with binding := x, cursor := [] } : Stmt) = { kind := .insert, binding := x, cursor := [] } := by
+    cases s; simp_all
+  rw [sqlite_run_cons, e2, sqlite_run_cons, e3, hs']
+  rfl
+
+/-- hypotheses satisfiable and the statement non-trivial: on `t(a NOT NULL)`, statement prepared (parameter NULL):
+    execute fails, bind(5), execute, execute, bind(NaN) [stored as NULL], execute fails, bind(object) [keeps NULL], execute
+    fails, exec(tup("x")), bind("y"), fetch, header, execute: rows 5, 5, "x", "y" -/
+example : let w := (Sqlite.run {} [.open, .createNN, .prepare (some .insert)]).1
+    let cs : List InsCall := [.execute, .bind [.int 5] true, .execute, .execute, .bind [.dec 0x7ff8000000000000] false, .execute,
+      .bind [.obj] true, .execute, .exec [.str [120]], .bind [.str [121]] true, .fetch, .header, .execute]
+    Ready w .null [] ∧ (Sqlite.run w (cs.map InsCall.toOp)).1.table = some [.integer 5, .integer 5, .text [120], .text [121]]
+    ∧ stored (okNN w.notNull) .null (cs.map (·.toCall w.emptyBuf)) = [.integer 5, .integer 5, .text [120], .text [121]]
+    ∧ List.zipWith InsCall.ans cs (Sqlite.run w (cs.map InsCall.toOp)).2
+        = [some false, none, some true, some true, none, some false, none, some false, some true, none, none, none, some true] := by
+  refine ⟨⟨by decide +kernel, by decide +kernel, { kind := .insert }, by decide +kernel, rfl, rfl, rfl⟩, by decide +kernel, by decide +kernel,
+    by decide +kernel⟩
+
+end SqliteHistory
 
 end BlocV.Proofs.C18F
